@@ -290,7 +290,13 @@ pub fn near_tied(r: &mut Rng) -> LinearModel {
         m.add_constraint(w, if max { Comparison::LessOrEqual } else { Comparison::GreaterOrEqual }, rhs);
     }
     m.set_objective(obj, if max { OptimizationType::Max } else { OptimizationType::Min });
-    m
+    let mut domain = indexmap::IndexMap::new();
+    for (name, t) in m.variables().iter().zip(types.iter()) {
+        domain.insert(name.clone(), rooc::model_transformer::DomainVariable::new(t.clone(), Default::default()));
+    }
+    let intended = LinearModel::new_from_parts(m.objective().clone(), m.optimization_type().clone(), m.objective_offset(),
+        m.constraints().clone(), m.variables().clone(), domain);
+    (intended, m)
 }
 
 /// A model whose `domain()` map is in a DIFFERENT order than `variables()` (what every Linearizer output looks like:
@@ -481,12 +487,17 @@ pub fn variable_free_block() -> Vec<LinearModel> {
 
 /// Named SINGLETON rows that bind (`cap: 2x <= 6`), built through `add_named_constraint`, next to a mixing row: the
 /// optimum is the unique non-degenerate vertex where all of them are active, prices positive (user sense).
-pub fn singleton_bound_rows(r: &mut Rng) -> LinearModel {
+/// Returns `(intended, built)`: `built` goes through `add_variable` / `add_named_constraint`, `intended` is the same model
+/// assembled with `new_from_parts` from the declared domains (the ground truth for the oracle: whatever the API calls do
+/// to the model besides storing the row must not change what the rows mean).
+pub fn singleton_bound_rows(r: &mut Rng) -> (LinearModel, LinearModel) {
     let n = 2 + r.below(2);
     let mut m = LinearModel::new();
+    let mut types: Vec<VariableType> = vec![];
     for i in 0..n {
         let t = if r.chance(1, 2) { VariableType::NonNegativeReal(0.0, f64::INFINITY) } else { VariableType::Real(f64::NEG_INFINITY, f64::INFINITY) };
-        m.add_variable(&format!("x{}", i), t);
+        m.add_variable(&format!("x{}", i), t.clone());
+        types.push(t);
     }
     let v: Vec<f64> = (0..n).map(|_| 1.0 + r.below(4) as f64).collect();
     let max = r.chance(2, 3);
@@ -506,7 +517,13 @@ pub fn singleton_bound_rows(r: &mut Rng) -> LinearModel {
     m.add_named_constraint(w.clone(), if max { Comparison::LessOrEqual } else { Comparison::GreaterOrEqual }, act, "mix");
     for j in 0..n { obj[j] += y * w[j]; }
     m.set_objective(obj, if max { OptimizationType::Max } else { OptimizationType::Min });
-    m
+    let mut domain = indexmap::IndexMap::new();
+    for (name, t) in m.variables().iter().zip(types.iter()) {
+        domain.insert(name.clone(), rooc::model_transformer::DomainVariable::new(t.clone(), Default::default()));
+    }
+    let intended = LinearModel::new_from_parts(m.objective().clone(), m.optimization_type().clone(), m.objective_offset(),
+        m.constraints().clone(), m.variables().clone(), domain);
+    (intended, m)
 }
 
 pub fn is_continuous(m: &LinearModel) -> bool {
